@@ -560,7 +560,7 @@ fn is_prefix(a: &[u8], full: &[u8]) -> bool {
 /// relaxed check after a hard fault or a crash: untouched files conserved; targets hold
 /// their old content, nothing, a prefix of the right content or the right content; and an
 /// invocation that reports success must have produced exactly the fault-free result.
-fn check_relaxed(e: &Expect, fo: &InvOut, _rec: &InvOut, before: &Snap, rec_after: &Snap, after: &Snap, inv_i: usize, crash: bool) -> Option<Fail> {
+fn check_relaxed(e: &Expect, fo: &InvOut, rec: &InvOut, before: &Snap, rec_after: &Snap, after: &Snap, inv_i: usize, crash: bool) -> Option<Fail> {
     let may: BTreeSet<&String> = e.may_touch.iter().collect();
     for (p, c) in before {
         if may.contains(p) {
@@ -605,6 +605,11 @@ fn check_relaxed(e: &Expect, fo: &InvOut, _rec: &InvOut, before: &Snap, rec_afte
             if after.get(p) != rec_after.get(p) {
                 return Some(Fail { clause: "silent-failure", inv: inv_i, detail: format!("exit status 0 although an I/O fault was injected, but {p} differs from the fault-free result; stdout {:?}", tail(&fo.out.stdout)) });
             }
+        }
+        // ... and what the user is told must be what the fault-free run tells: a fault that was
+        // swallowed and changed the listing (an input that was skipped) is a failure reported as success
+        if fo.faults_fired > 0 && fo.out.stdout != rec.out.stdout {
+            return Some(Fail { clause: "silent-failure", inv: inv_i, detail: format!("exit status 0 although an I/O fault was injected, but stdout differs from the fault-free run: {:?} instead of {:?}", tail(&fo.out.stdout), tail(&rec.out.stdout)) });
         }
     }
     None
